@@ -18,11 +18,13 @@ import (
 // against NewMemLS() and against a reference model written from the statement:
 // a set of locks {root, depth, expiry or infinite, held}. The clock is passed
 // explicitly; it never goes backwards and can never be equal to an expiry instant
-// (operation i runs at <whole seconds> + i milliseconds, durations are whole seconds).
+// (operation i runs at <whole seconds> + <whole milliseconds> + i microseconds, durations
+// are whole seconds).
 
 type c43Op struct {
 	Kind  string `json:"kind"`            // create | refresh | unlock | confirm | release
 	Adv   int    `json:"adv"`             // whole seconds the clock advances before the operation
+	AdvMs int    `json:"adv_ms,omitempty"` // plus that many milliseconds (clock values between two expiries of the same second)
 	Name  string `json:"name,omitempty"`  // create: root; confirm: name0
 	Name1 string `json:"name1,omitempty"` // confirm: name1
 	Zero  bool   `json:"zero,omitempty"`  // create: zero depth
@@ -114,6 +116,7 @@ var c43Base = time.Date(2020, 1, 2, 3, 4, 5, 0, time.UTC)
 
 type c43Model struct {
 	secs        int
+	msecs       int
 	now         time.Time
 	issued      int              // number of locks ever created
 	live        map[int]*c43Lock // live locks by issue number
@@ -160,7 +163,10 @@ func (m *c43Model) step(i int, o c43Op) c43Expect {
 	if o.Adv > 0 {
 		m.secs += o.Adv
 	}
-	m.now = c43Base.Add(time.Duration(m.secs)*time.Second + time.Duration(i)*time.Millisecond)
+	if o.AdvMs > 0 {
+		m.msecs += o.AdvMs
+	}
+	m.now = c43Base.Add(time.Duration(m.secs)*time.Second + time.Duration(m.msecs)*time.Millisecond + time.Duration(i)*time.Microsecond)
 	now := m.now
 	if o.Kind == "release" {
 		if len(m.outstanding) == 0 {
@@ -333,6 +339,9 @@ func c43Gen(t *rapid.T) c43Case {
 	})
 	op := rapid.Custom(func(t *rapid.T) c43Op {
 		o := c43Op{Adv: adv.Draw(t, "adv")}
+		if rapid.IntRange(0, 2).Draw(t, "subSecond") == 0 {
+			o.AdvMs = rapid.SampledFrom([]int{1, 100, 300, 400, 500, 800, 999}).Draw(t, "advMs")
+		}
 		k := rapid.IntRange(0, 11).Draw(t, "kind")
 		if k >= 10 && len(sim.outstanding) == 0 {
 			k = 8
@@ -446,7 +455,7 @@ func c43Prop(c c43Case, r *vp.Rec) error {
 		}
 		want := model.step(i, o)
 		now := model.now
-		where := fmt.Sprintf("step %d at +%ds", i, model.secs)
+		where := fmt.Sprintf("step %d at +%ds%dms", i, model.secs, model.msecs)
 		r.Class(want.class)
 		if want.skip {
 			continue
